@@ -213,8 +213,11 @@ def main():
         "violations": len(violations),
         "verdict": "violated" if violations else ("inconclusive" if inconclusive else "held"),
     }
-    os.makedirs(os.path.join(VERIF, "evidence"), exist_ok=True)
-    with open(os.path.join(VERIF, "evidence", f"{prop}.json"), "w") as fh:
+    # evidence/ only ever describes runs against /repo itself; dev-time runs against a scratch copy (--repo) go elsewhere
+    scratch = os.path.realpath(args.repo) != os.path.realpath("/repo")
+    evdir = os.path.join(VERIF, ".work", "evidence-scratch") if scratch else os.path.join(VERIF, "evidence")
+    os.makedirs(evdir, exist_ok=True)
+    with open(os.path.join(evdir, f"{prop}.json"), "w") as fh:
         json.dump(ev, fh, indent=1, sort_keys=True, default=core._default)
         fh.write("\n")
 
